@@ -166,7 +166,8 @@ def internal_methods(n, kind):
                     pass
             except Exception:  # noqa: BLE001
                 pass
-        _internal[key] = set(mcalls)
+        import collections
+        _internal[key] = collections.Counter(mcalls)
     return _internal[key]
 
 
@@ -281,6 +282,14 @@ def query_args(yp, kind, n):
     return [yp.atom('a')] * n
 
 
+def beyond(mcalls, allowed):
+    """engine functions entered more often than a query for an undefined predicate (same arguments)
+    enters them: such a query is the most a hostile name may cause"""
+    import collections
+    c = collections.Counter(mcalls)
+    return ['%s x%d (an undefined name: x%d)' % (m, k, allowed.get(m, 0)) for m, k in c.items() if k > allowed.get(m, 0)]
+
+
 BUILTIN_PREDS = {'=', '\\=', 'findall', 'call', 'once', 'assertz', 'asserta', 'retract', 'retractall'}
 
 
@@ -303,7 +312,7 @@ def check_query(name, n, kind):
         # builtins (=, call, findall ...) may legitimately raise on nonsense arguments
         if name in BUILTIN_PREDS and not rec.lookups:
             return ('ok', None, None, ('builtin-predicate-raises', type(e).__name__))
-        reached = [m for m in mcalls if m not in allowed]
+        reached = beyond(mcalls, allowed)
         if reached:
             return ('violation', 'hostile-query-reaches-api', 'query(%r, %d %s args) raised %r after calling the engine method(s) %s, which a query for an undefined predicate does not go through'
                     % (name, n, kind, e, sorted(set(reached))[:6]), None)
@@ -313,7 +322,7 @@ def check_query(name, n, kind):
     builtin_preds = BUILTIN_PREDS
     if name in builtin_preds and not rec.lookups:
         return ('ok', None, None, ('builtin-predicate',))
-    reached = [m for m in mcalls if m not in allowed]
+    reached = beyond(mcalls, allowed)
     if reached:
         return ('violation', 'hostile-query-reaches-api', 'query(%r, %d %s args) called the engine method(s) %s, which a query for an undefined predicate does not go through'
                 % (name, n, kind, sorted(set(reached))[:6]), None)
